@@ -138,7 +138,14 @@ func (l *rwmutex) Lock() {
 	l.mu.Lock()
 }
 func (l *rwmutex) LockLowPriority() {
+	start := time.Now()
 	for !l.mu.TryLock() {
+		if time.Since(start) > time.Millisecond*250 {
+			// Overlapping readers never let a TryLock through: queue up
+			// like a regular writer rather than wait forever.
+			l.mu.Lock()
+			return
+		}
 		runtime.Gosched()
 	}
 }
